@@ -314,6 +314,10 @@ def load_image_band(filename,
         data = data * header['BSCALE']
     if 'BZERO' in header:
         data = data + header['BZERO']
+    # integer images: the pixels are treated as floating point values
+    # (with nan for blank pixels) by everything that uses them
+    if not np.issubdtype(data.dtype, np.floating):
+        data = data.astype(np.float64)
     # adjust the header to match the data shape
     header['NAXIS2'] = row_max-row_min
     header['CRPIX2'] -= row_min
